@@ -104,6 +104,7 @@ func menu(j job) proch.Enabled {
 			evs = append(evs, proch.Event{Kind: "tick", DtSec: t})
 		}
 		evs = append(evs, proch.Event{Kind: "tick", DtSec: 300, FullQ: true}, proch.Event{Kind: "tick", DtSec: 30, FullQ: true})
+		evs = append(evs, proch.Event{Kind: "tick", DtSec: 301, FullS: true})
 		if m.Cur+1 < len(j.C.Sets) {
 			evs = append(evs, proch.Event{Kind: "set", Set: m.Cur + 1})
 		}
@@ -167,7 +168,7 @@ func (o *oracle) after(in *proch.Inst, e proch.Event, out proch.Out, hist []proc
 		return
 	}
 	o.r.Add("ticks_checked", 1)
-	if out.Blocked {
+	if out.Blocked && !e.FullS {
 		o.viol("a full re-observation request queue blocks the cleanup tick", "", hist)
 	}
 	now := vtime.Now()
@@ -230,6 +231,10 @@ func (o *oracle) after(in *proch.Inst, e proch.Event, out proch.Out, hist []proc
 			if !e.FullQ && reqs != 1 {
 				o.viol(fmt.Sprintf("re-broadcast accompanied by %d re-observation requests for the originating transaction, want 1", reqs), desc, hist)
 			}
+		}
+		// S1b: a retry that is counted has gone out (a busy gossip consumer delays it, it does not cancel it)
+		if retrans == 0 && alive && E.HasOurMsg && P.RetryCount > E.RetryCount {
+			o.viol("a retry was counted but the observation was not re-broadcast", desc, hist)
 		}
 		// S2: a due retry must happen
 		if kind == "observed-unsubmitted" && E.Settled && age >= 5*time.Minute && sinceRetry >= 5*time.Minute && E.RetryCount < budget && retrans == 0 {
